@@ -5,7 +5,6 @@
 set -u
 export GOFLAGS=-mod=mod GOPROXY=off GOSUMDB=off GOTOOLCHAIN=local
 name=$1; prop=$2; wt=$3
-if ! git -C /repo diff --quiet || ! git -C /repo diff --cached --quiet; then echo "refusing: /repo has uncommitted changes"; exit 9; fi
 dst=/verif/seeded/$name
 mkdir -p $dst
 cp $wt/SEEDED/patch.diff $dst/patch.diff
@@ -33,11 +32,15 @@ demo_without=$(cd $pkgdir && go test -mod=mod -vet=off -count=1 -timeout 300s -r
 cd /verif
 git -C /repo worktree remove --force $cf
 # run the checks against the seeded change
-git -C /repo apply $dst/patch.diff
-chk=$(/verif/bin/govc check -property $prop 2>&1 | grep -v "^KNOWN-FINDING" | tail -12)
+# a scratch copy of the repository and of the verif state: /repo itself is never touched
+sr=/var/tmp/se-repo-$name; sv=/var/tmp/se-verif-$name
+rm -rf $sr $sv; mkdir -p $sr $sv
+rsync -a --exclude .git /repo/ $sr/
+rsync -a /verif/ledger /verif/drivers /verif/known_findings.json $sv/
+(cd $sr && git apply --unsafe-paths $dst/patch.diff)
+chk=$(/verif/bin/govc check -repo $sr -verif $sv -property $prop 2>&1 | grep -av "^KNOWN-FINDING" | tail -12)
 rc=$?
-git -C /repo checkout -- .
-git -C /repo status --short | grep -v '^??' | head -3
+rm -rf $sr $sv
 python3 - "$dst" "$prop" "$pkgdir" "$res_apply" "$build" "$suite" "$demo_with" "$demo_without" "$chk" <<'PY'
 import json,sys
 dst,prop,pkgdir,apply_,build,suite,dw,dwo,chk=sys.argv[1:]
@@ -47,7 +50,7 @@ m={"property":prop,"summary":a.get("summary"),"needs_to_manifest":a.get("needs_t
  "confirmed_by_me":{"patch_applies":apply_.strip()=="ok","build_output":build,"suite_failures_with_change":suite,
    "demo_with_change":dw,"demo_without_change":dwo,
    "what_i_ran":"fresh worktree of /repo HEAD under /tmp: git apply patch; go build ./...; go test ./... (whole suite); demo test with the change; git apply -R; demo test without the change"},
- "check_result":{"cmd":"/verif/bin/govc check -property "+prop+" (patch applied to /repo, reverted afterwards)","output":chk,"detected":"VIOLATION" in chk}}
+ "check_result":{"cmd":"/verif/bin/govc check -property "+prop+" (patch applied to a scratch copy of /repo)","output":chk,"detected":"VIOLATION" in chk}}
 json.dump(m,open(dst+'/meta.json','w'),indent=1)
 print(json.dumps({"suite_fail":suite,"demo_with":dw[-300:],"demo_without":dwo[-200:],"detected":"VIOLATION" in chk},indent=1))
 print(chk)
